@@ -83,7 +83,7 @@ var zooTypes = []interface{}{
 	zoo.Scalars{}, zoo.Small{}, zoo.Slices{}, zoo.Conts{}, zoo.Derived{}, zoo.CustomHolder{}, zoo.Custom{},
 	zoo.NamedMapHolder{}, zoo.Node{}, zoo.FNode{}, zoo.Ping{}, zoo.Pong{}, zoo.Wide{}, zoo.Five{},
 	zoo.HI{}, zoo.HI8{}, zoo.HI16{}, zoo.HI32{}, zoo.HI64{}, zoo.HU{}, zoo.HU8{}, zoo.HU16{}, zoo.HU32{}, zoo.HU64{},
-	zoo.HF32{}, zoo.HF64{}, zoo.HStr{}, zoo.HBin{}, zoo.HTime{}, zoo.HBool{}, zoo.HPTime{}, zoo.Named{},
+	zoo.HF32{}, zoo.HF64{}, zoo.HStr{}, zoo.HBin{}, zoo.HTime{}, zoo.HBool{}, zoo.HPTime{}, zoo.Named{}, zoo.Outer{}, zoo.Interior{},
 }
 
 var topTypes = []interface{}{
@@ -634,6 +634,33 @@ func famC04(e *emitter, g *gen.G, thorough bool) {
 		}
 		a.A, a.B = b, c
 		e.emit(fmt.Sprintf("shared/%d", v), a)
+	}
+	// (iii'') one address, several values: a struct and its first field, slices of different length
+	// over one array, each followed by genuine back-references
+	for idx := 0; idx < 6*6*3; idx++ {
+		o := &zoo.Outer{In: zoo.Small{Name: "in", N: 5}, X: 7}
+		arr := []int32{1, 2, 3, 4}
+		sm := []*zoo.Small{{Name: "s0"}, {Name: "s1"}, {Name: "s2"}}
+		cut := func(c int) []int32 {
+			return [][]int32{nil, arr[:4], arr[:3], arr[:2], arr[1:3], arr[:4:4]}[c]
+		}
+		cutp := func(c int) []*zoo.Small {
+			return [][]*zoo.Small{nil, sm[:3], sm[:2], sm[:1], sm[1:], sm[:3:3]}[c]
+		}
+		it := &zoo.Interior{C: cut(idx % 6), D: cut(idx / 6 % 6), E: cutp(idx / 6 % 6), F: cutp(idx % 6)}
+		switch idx / 36 {
+		case 0:
+			it.A, it.B = o, &o.In
+		case 1:
+			it.A, it.B = o, &zoo.Small{Name: "in", N: 5}
+		case 2:
+			it.B = &o.In
+		}
+		it.G, it.H, it.I = it.A, it.B, it.C
+		e.emit(fmt.Sprintf("interior/%d", idx), it)
+		if idx%9 == 0 {
+			e.emit(fmt.Sprintf("interiorlist/%d", idx), []interface{}{o, &o.In, cut(idx % 6), cut(idx / 6 % 6), o, &o.In, cut(idx % 6)})
+		}
 	}
 	// (iii') a chain whose last node points back at node k: every ordinal 0..69, and around the 2-octet int boundary
 	for k := 0; k < 70; k++ {
